@@ -228,10 +228,28 @@ func merkleCase(r *lib.Run, idx int) {
 		n = 1 + rng.IntN(40)
 	}
 	unique := rng.IntN(3) != 0
+	// leaf lengths: short ones, every length up to 600 (idx-driven so that a run covers all of
+	// them), and lengths around powers of two up to 16 KiB (shards of real messages are that long)
+	lenClass := rng.IntN(4)
+	leafLen := func(i int) int {
+		switch lenClass {
+		case 0:
+			return rng.IntN(40)
+		case 1:
+			return (idx*7 + i) % 600
+		case 2:
+			return max(0, (1<<uint(4+rng.IntN(11)))-16+rng.IntN(32))
+		default:
+			return rng.IntN(700)
+		}
+	}
+	if lenClass >= 1 && n > 12 {
+		n = 1 + n%12
+	}
 	leaves := make([][]byte, n)
 	for i := range leaves {
 		if unique {
-			leaves[i] = append([]byte{byte(i), byte(i >> 8), 0xA5}, randBytes(rng, rng.IntN(40))...)
+			leaves[i] = append([]byte{byte(i), byte(i >> 8), 0xA5}, randBytes(rng, leafLen(i))...)
 		} else {
 			switch rng.IntN(4) {
 			case 0:
@@ -308,6 +326,17 @@ func merkleCase(r *lib.Run, idx int) {
 			l3 := append([]byte(nil), leaves[i]...)
 			l3[rng.IntN(len(l3))] ^= 1 << uint(rng.IntN(8))
 			tamper("leaf-bit-flip", i, cp(), root, l3, uint32(i), true)
+			for _, back := range []int{1, 2, 3, 4, 5, 6, 7, 8, 13, 14} {
+				if back <= len(leaves[i]) {
+					l4 := append([]byte(nil), leaves[i]...)
+					l4[len(l4)-back] ^= 1 << uint(rng.IntN(8))
+					tamper("leaf-bit-flip-near-end", i, cp(), root, l4, uint32(i), true)
+				}
+			}
+			l5 := append([]byte(nil), leaves[i]...)
+			l5[0] ^= 1 << uint(rng.IntN(8))
+			tamper("leaf-bit-flip-first-byte", i, cp(), root, l5, uint32(i), true)
+			tamper("leaf-truncated", i, cp(), root, leaves[i][:len(leaves[i])-1], uint32(i), !(len(leaves[i]) == 1 && !unique))
 		}
 		// every sibling
 		for s := range p.Siblings {
